@@ -1,0 +1,54 @@
+//go:build verif
+
+// Verification hooks (build tag verif). Add-only: exposes unexported entry points of
+// the node to the /verif harness. Nothing here is compiled into a normal build.
+
+package node
+
+import (
+	"github.com/vechain/thor/v2/block"
+	"github.com/vechain/thor/v2/packer"
+)
+
+// VerifInit performs the part of Run that block processing depends on.
+func (n *Node) VerifInit() error {
+	maxBlockNum, err := n.repo.GetMaxBlockNum()
+	if err != nil {
+		return err
+	}
+	n.maxBlockNum = maxBlockNum
+	return nil
+}
+
+// VerifProcessBlock imports a received block exactly as handleBlockStream does.
+func (n *Node) VerifProcessBlock(blk *block.Block) (bool, error) {
+	var stats blockStats
+	return n.processBlock(blk, &stats)
+}
+
+// VerifDoPack packs on the given flow exactly as packerLoop does.
+func (n *Node) VerifDoPack(flow *packer.Flow) error {
+	return n.doPack(flow)
+}
+
+// VerifClose stops the background log worker.
+func (n *Node) VerifClose() {
+	n.logWorker.Close()
+}
+
+// VerifErrClass classifies an import error the way processBlock's switch does.
+func VerifErrClass(err error) string {
+	switch err {
+	case nil:
+		return "ok"
+	case errKnownBlock:
+		return "known"
+	case errParentMissing:
+		return "parent-missing"
+	case errBlockTemporaryUnprocessable:
+		return "unprocessable"
+	case errBFTRejected:
+		return "bft-rejected"
+	}
+	return "error"
+}
